@@ -88,7 +88,7 @@ def run_verus_unit(pid, unit, tier, evidence, problems):
         origin = prim.get('origin') or ()
         from_vspec = bool(origin) and str(origin[0]).startswith('vspec')
         msg = f['message']
-        internal = bool(re.search(r'invariant|assertion failed|assert|condition of closure', msg, re.I)) or (('precondition' in msg or 'requires' in msg) and from_vspec)
+        internal = bool(re.search(r'invariant|assertion failed|assert|pre-?condition of closure', msg, re.I)) or (('precondition' in msg or 'requires' in msg) and from_vspec)
         problems['failed'].append({'unit': unit, 'backend': 'verus', 'obligation': oblig, 'function': f['function'],
                                    'verifier_output': f['rendered'], 'origin': prim.get('origin'), 'internal': internal})
 
